@@ -10,8 +10,14 @@
 //! assume: block sources never report the height u32::MAX (check_builds_on computes previous_header.height + 1 in u32)
 //! assume: the served block tree is consistent: one parent and one height per block hash (parent_of/height_of uninterpreted)
 //! assume: termination of the walk is not claimed (needs a genesis assumption): partial correctness only
+//! trusted: assume_specification for core::cmp::max / core::cmp::min (std definitions): present in every unit so that a change that introduces them is verified instead of being rejected by the tool
 use vstd::prelude::*;
 verus! {
+use core::cmp;
+pub assume_specification<T: core::cmp::Ord>[core::cmp::max::<T>](a: T, b: T) -> (r: T)
+    ensures T::obeys_cmp_spec() ==> r == (if b.cmp_spec(&a) == core::cmp::Ordering::Less { a } else { b });
+pub assume_specification<T: core::cmp::Ord>[core::cmp::min::<T>](a: T, b: T) -> (r: T)
+    ensures T::obeys_cmp_spec() ==> r == (if b.cmp_spec(&a) == core::cmp::Ordering::Less { b } else { a });
 use vstd::std_specs::cmp::*;
 use vstd::std_specs::ops::*;
 use core::ops::Deref;
